@@ -250,6 +250,61 @@ def run(ctx):
                        msg=f'{hname[1:]} writes the cells {shown} of its matrix argument, expected {w_start} + {w_stride} * [0, {w_count}) (the whole row / column)')
     r.require_min(6)
 
+    # ---------------- R04j encode: parity j is the dot product of generator row k + j with the data, over the whole block
+    r = ctx.rule('R04j', 'RS encode: each parity buffer is cleared and then filled by region_dot_product(data, parity[j], row k+j, k, blocksize) - nothing else writes it',
+                 'parity j must equal the generator row k + j applied to every byte of the data: a strip-wise or special-cased row computes some bytes from the wrong source')
+    from ..loops import loops_of as _lo4j, in_iteration_space as _its4j
+    ef = rsm.functions.get('@liberasurecode_rs_vand_encode')
+    if ef is None:
+        raise AnalysisBroken('anchor vanished: liberasurecode_rs_vand_encode')
+    pce = PolyCtx(P, ef)
+    LSe = _lo4j(P, ef, pce)
+    pn = [n_ for _, n_ in ef.params]           # (generator_matrix, data, parity, k, m, blocksize)
+    Ke, Be = Poly.atom('arg3'), Poly.atom('arg5')
+    Ap, _ = derived_pointers(ef, [pn[2]])
+    def parity_slot(v):
+        """the subscript j (iteration-space form) when v is parity[j] (the loaded element itself, not an offset into it)"""
+        d_ = ef.defs.get(strip_ptr_casts(ef, v))
+        if d_ is None or d_.op != 'load' or d_.ops[0] not in Ap:
+            return None
+        root_, off_ = pce.ptr(d_.ops[0])
+        return _its4j(LSe, d_.bb, PolyCtx.div(off_, 8))
+    ndp = 0
+    for c_ in ef.insts():
+        if c_.op != 'call':
+            continue
+        if c_.callee == '@region_dot_product':
+            ndp += 1
+            j_ = parity_slot(c_.ops[1])
+            rowr, rowo = pce.ptr(c_.ops[2])
+            rowi = _its4j(LSe, c_.bb, PolyCtx.div(rowo, 4))
+            inst = f'rs_vand encode: region_dot_product at line {c_.line}'
+            ok_ = (strip_ptr_casts(ef, c_.ops[0]) == pn[1] and j_ is not None and rowr == 'arg0' and rowi == (Ke + j_) * Ke
+                   and pce.val(c_.ops[3]) == Ke and pce.val(c_.ops[4]) == Be)
+            if ok_:
+                r.ok(inst + ': (data, parity[j], generator row k+j, k, blocksize)', func=ef.name, loc=c_.loc)
+            else:
+                r.fail(inst, func=ef.name, sig='encode dot product arguments', loc=c_.loc,
+                       msg=f'region_dot_product is called with sources {Canon(P, ef).val(c_.ops[0])[:40]}, destination slot {j_}, row offset {rowi}, count {pce.val(c_.ops[3])}, '
+                           f'length {pce.val(c_.ops[4])}: expected (data, parity[j], generator + (k + j) * k, k, blocksize)')
+        elif (c_.callee or '').startswith(('@llvm.memcpy', '@llvm.memmove', '@llvm.memset')) or c_.callee in ('@region_xor', '@region_multiply', '@fast_memcpy'):
+            di = 1 if c_.callee in ('@region_xor', '@region_multiply') else 0
+            root_ = strip_ptr_casts(ef, c_.ops[di])
+            B_, _b = derived_pointers(ef, [l_.res for l_ in ef.insts() if l_.op == 'load' and l_.ops[0] in Ap])
+            if root_ not in B_:
+                continue
+            whole_clear = (c_.callee or '').startswith('@llvm.memset') and parity_slot(c_.ops[0]) is not None and pce.val(c_.ops[2]) == Be and c_.ops[1] == '0'
+            inst = f'rs_vand encode: {c_.callee[1:].split(".p0")[0]} into a parity buffer at line {c_.line}'
+            if whole_clear:
+                r.ok(inst + ': the whole buffer is cleared', func=ef.name, loc=c_.loc)
+            else:
+                r.fail(inst, func=ef.name, sig=f'parity written by {c_.callee[1:25]}', loc=c_.loc,
+                       msg=f'a parity buffer is written by {c_.callee[1:]} (line {c_.line}) other than the clearing of the whole buffer: its bytes no longer come from the '
+                           'dot product of its generator row with the data alone')
+    if not ndp:
+        r.fail('rs_vand encode: dot products', func=ef.name, sig='encode without region_dot_product', loc=ef.mod.src, msg='liberasurecode_rs_vand_encode never calls region_dot_product')
+    r.require_min(2)
+
     # ---------------- R04g field arithmetic is total on the field
     r = ctx.rule('R04g', 'rs_galois_mult / div / inverse special-case only the zero operands (0 for x == 0 or y == 0, -1 for division by 0)',
                  'an extra range check that returns 0 for a valid element (e.g. 0xffff) changes parity words and generator entries that hit that element')
